@@ -2109,6 +2109,9 @@ def clean_list(lst):
     for i, line in enumerate(lst):
         if line is None:
             lst[i] = ""
+        elif not isinstance(line, str):
+            # A line such as "- 2020" is read as a number.
+            lst[i] = str(line)
 
 def listify(entry, names):
     """
@@ -2147,7 +2150,7 @@ def listify(entry, names):
 #              else:
 #                  new[key] = [ value ]
                 new[key] = value.split("\n")
-                if value[-1] == "\n":
+                if value and value[-1] == "\n":
                     new[key].pop()
             elif isinstance(value, list):
                 new[key] = ["" if v is None else v for v in value]
